@@ -20,6 +20,7 @@ PROP = {'streams': [('c17', 1000, 100000)],
               'slicer_meets_spec',
               'slice_is_substore',
               'slicer_needs_agreeing_annotations',
+              'slice_monotone_entities_needs_flags',
               'manifest_sound_sliced',
               'response_sliced_static',
               'decision_sliced_static',
